@@ -20,6 +20,8 @@ VALUE_GRID = {
     "int64": [None, 0, 1, -1, 7, -7, 100, -128, 127, 32767, 2**20, -(2**20)],
     "bool": [None, True, False],
     "str_int": [None, "0", "1", "-1", "+5", "007", "-042", "123456"],
+    # numerals beyond 2**53: an integer parse must not go through a double
+    "str_bigint": [None, "9007199254740993", "-9007199254740993", "999999999999999999", "4611686018427387905"],
     "str_float": [None, "0", "1.5", "-2.25", "+3.0", "007.50", "1e3", "-1.5E2", "12"],
     "date": [None, dt.date(2000, 2, 29), dt.date(1900, 1, 1), dt.date(2100, 12, 31), dt.date(1970, 1, 1)],
     "datetime": [None, dt.datetime(2000, 2, 29, 13, 14, 15), dt.datetime(1999, 12, 31, 23, 59, 59), dt.datetime(1970, 1, 1)],
@@ -31,13 +33,14 @@ TARGETS = {
     "int64": ["float64", "float32", "str", "int32", "int16", "int8"],
     "bool": ["int64", "int8", "float64"],
     "str_int": ["int64", "int32", "float64"],
+    "str_bigint": ["int64"],
     "str_float": ["float64"],
     "date": ["datetime", "str"],
     "datetime": ["date", "str"],
     "datetime_ms": ["date", "str"],
     "datetime_ns": ["date", "str"],
 }
-SRC = {"str_int": "str", "str_float": "str"}
+SRC = {"str_int": "str", "str_float": "str", "str_bigint": "str"}
 
 
 def value_cases():
